@@ -227,6 +227,15 @@ def analyse(ctx, cases, outs, envs):
             ctx.broken_obligation("worker:" + name, o["error"])
             continue
         ctx.stats.setdefault("workers", {})[name] = dict(o["env"], wall_s=o.get("wall_s"))
+        # the same small configurations are accepted / refused alike in a new process and after every run
+        ps, pe = o.get("probe_start"), o.get("probe_end")
+        ctx.count("schema_probe_comparisons", len(ps or []))
+        if ps != pe:
+            diff = [(a, b) for a, b in zip(ps, pe) if a != b]
+            ctx.violation("check_result_depends_on_history",
+                          f"matching-cost configurations accepted/refused differently in a new process and after the "
+                          f"runs of this process ({name}): {diff[:4]}",
+                          {"env": name, "probe_start": ps, "probe_end": pe, "case": cases[0]})
         seen = {}
         for r in o["results"]:
             k = seen.get(r["id"], 0)
@@ -341,6 +350,8 @@ def run(ctx):
     else:
         cases = gen_cases(rng, ctx.tier)
     envs = list(ENVS_QUICK)
+    if ctx.replay_case is not None and ctx.replay_case.get("env") not in (None, envs[0][0]):
+        envs = [envs[0]] + [e for e in envs if e[0] == ctx.replay_case["env"]]     # the reference and the named one
     if ctx.tier == "thorough":
         envs += [("threads16", "16", None, False, [16, 5]), ("parallel_off_1", "1", "False", False, None)]
     max_par = 3 if ctx.tier == "quick" else 2
@@ -349,8 +360,7 @@ def run(ctx):
     ctx.stats["cases"] = len(cases)
     ctx.stats["pipelines"] = sorted(PIPELINES)
     analyse(ctx, cases, outs, envs)
-    if (broken_before or ctx.violations) and ctx.replay_case is None and not any(
-            v["key"] in ("thread_count_differs", "kernel_thread_count_differs") for v in ctx.violations):
+    if broken_before and not ctx.violations and ctx.replay_case is None:
         # something no longer checks: extended search for a schedule-dependent result (larger images: more
         # iterations per thread, repeated, 1 thread against 8)
         big = gen_cases(rng, "quick", big=True)[::3]
